@@ -209,13 +209,13 @@ example :
 /-! ### nesting -/
 
 /-- top-level values read through `PDFStreamParser.nextobject`: everything but a bare `n g R` -/
-def notRef : SObj → Prop
-  | .ref _ => False
+def notRef : PObj → Prop
+  | .ref _ _ => False
   | _ => True
 
 /-- Arrays and dictionaries nested to ANY depth: feeding the token sequence of a tree to the stack
     parser yields exactly that tree (null-valued dictionary entries absent), nothing else, no error. -/
-theorem C01_nesting (v : SObj) (hc : clean v) (hr : notRef v) :
+theorem C01_nesting (v : PObj) (hc : clean v) (hr : notRef v) :
     feedAll {} (ser v) = { results := [norm v] } := by
   have htop : ((({} : PState).error = none) ∧ (({} : PState).context = [])) := ⟨rfl, rfl⟩
   cases v with
@@ -234,7 +234,7 @@ theorem C01_nesting (v : SObj) (hc : clean v) (hr : notRef v) :
   | str s => simp [ser, feedAll_cons, feedAll_nil, feed, push, norm]
   | lit n => simp [ser, feedAll_cons, feedAll_nil, feed, push, norm]
   | kwd n => simp [clean] at hc
-  | ref n => simp [notRef] at hr
+  | ref n g => simp [notRef] at hr
   | arr items =>
     have ho := feed_open {} (Or.inr htop) [91] .a (Or.inl ⟨rfl, rfl⟩)
     simp only [clean] at hc
@@ -256,35 +256,45 @@ theorem C01_nesting (v : SObj) (hc : clean v) (hr : notRef v) :
     rw [e, feed_close_dict {} es rfl hc.2.1 hc.2.2, norm]
     simp [closed]
 
-/-- Non-vacuity: `<< /K [ 1 0 R null (s) ] /N null >>` — two levels, a reference, a dropped entry —
+/-- Non-vacuity: `<< /K [ 1 7 R null (s) ] /N null >>` — two levels, a reference, a dropped entry —
     meets the hypotheses. -/
-example : clean (.dict [([75], .arr [.ref 1, .null, .str [115]]), ([78], .null)]) ∧
-    notRef (.dict [([75], .arr [.ref 1, .null, .str [115]]), ([78], .null)]) := by
+example : clean (.dict [([75], .arr [.ref 1 7, .null, .str [115]]), ([78], .null)]) ∧
+    notRef (.dict [([75], .arr [.ref 1 7, .null, .str [115]]), ([78], .null)]) := by
   refine ⟨?_, trivial⟩
   simp only [clean, cleanEntries, cleanList, keysOf, and_self, true_and]
   exact ⟨by decide, by intro k hk; simp at hk; rcases hk with rfl | rfl <;> decide⟩
 
 /-! ### end to end -/
 
-/-- Tokens of a well-formed spelled tree = token sequence of its value (buffer-free automaton). -/
-theorem C01_tokens (t : STree) (hwf : wf t) : tokVals (specLex (bytesOf t)) = ser (valueOf t) := by
+/-- the flushed newline yields nothing from a hand-over state -/
+theorem ho_newline (st : St) (p : Nat) (h : HO st) : (foldBytes st [10] p).2 = [] := by
   have hsp : isNONSPC 10 = false := by decide +kernel
-  obtain ⟨st', hm, h⟩ := lex_tree t hwf St.init [10] 0 rfl
-  unfold specLex
-  rw [h]
-  simp [foldBytes, stepByte, stepN, searchClass, hsp, hm, tokVals]
+  rcases h with hm | hw
+  · simp [foldBytes, stepByte, stepN, searchClass, hsp, hm]
+  · rw [fold_from_wclose st 10 [] p hw (by decide)]
+    simp [foldBytes, stepByte, stepN, searchClass, hsp]
 
-/-- END-TO-END round trip, for trees of ANY depth and every token-level spelling freedom
-    (integer signs / leading zeros, every real form, `#xx` names, all string escapes / octal /
-    continuations / nested parentheses, hex case and inner white space incl. NUL, any run of white
-    space between tokens): reading the bytes of a spelled tree with the tokenizer and the stack
-    parser yields exactly its value, once, with no error.
-    `_partial`: every token that is not self-delimiting is followed by at least one white-space
-    byte (no "minimal delimiters"), no comments between tokens, even hex digit count (open finding),
-    generation number 0, a bare `n g R` is not a top-level value of PDFStreamParser. -/
+/-- Tokens of a well-formed spelled tree (behind any separator) = token sequence of its value. -/
+theorem C01_tokens (pad : List SepItem) (hpad : sepOK pad) (t : STree) (hwf : wf t) :
+    tokVals (specLex (renderSep pad ++ bytesOf t)) = ser (valueOf t) := by
+  have hu := LexUnit.append_free (LexUnit.sep pad hpad) (lex_tree t hwf)
+  obtain ⟨st', hm, h⟩ := hu St.init 10 [] 0 (Or.inl rfl) (fun _ => by decide)
+  unfold specLex
+  rw [h, ho_newline st' _ hm]
+  simp [tokVals]
+
+/-- END-TO-END round trip for spelled trees of ANY depth: every token-level spelling freedom (integer
+    signs / leading zeros, every real form, `#xx` names, all string escapes / octal / continuations /
+    nested parentheses, hex case and inner white space incl. NUL), any separator between tokens —
+    white space of every kind, comments, or NOTHING where a delimiter follows (minimal delimiters,
+    e.g. `[/A/B(s)<41>]`, `<</K<41>>>`) — any generation number: reading the bytes with the tokenizer
+    and the stack parser yields exactly the value, once, with no error.
+    `_partial` only because of: even hex digit count (open finding `odd-hex-digit`), and a bare
+    `n g R` as a top-level value (PDFStreamParser has no enclosing object; see `C01_getobj_*`). -/
 theorem C01_roundtrip_partial (t : STree) (hwf : wf t) (hnr : notRef (valueOf t)) :
     objects (specLex (bytesOf t)) = { results := [norm (valueOf t)] } := by
-  have h := C01_tokens t hwf
+  have h := C01_tokens [] (by intro i hi; cases hi) t hwf
+  simp only [renderSep, List.nil_append] at h
   unfold objects
   simp only [tokVals] at h
   rw [h]
@@ -295,44 +305,60 @@ theorem C01_roundtrip_buffered_partial (b : Nat) (hb : 1 ≤ b) (t : STree) (hwf
     (run b (bytesOf t)).map objects = some { results := [norm (valueOf t)] } := by
   rw [C14.C14_run_eq_spec b hb, Option.map_some, C01_roundtrip_partial t hwf hnr]
 
-/-- Independence of the object's offset: any white-space padding in front (so any absolute position,
-    any alignment with the read buffers) leaves the value read unchanged. -/
-theorem C01_offset_partial (b : Nat) (hb : 1 ≤ b) (pad : Bytes) (hpad : gapAny pad) (t : STree) (hwf : wf t)
+/-- Independence of the object's offset: any white space and comments in front (so any absolute
+    position, any alignment with the read buffers) leave the value read unchanged. -/
+theorem C01_offset_partial (b : Nat) (hb : 1 ≤ b) (pad : List SepItem) (hpad : sepOK pad) (t : STree) (hwf : wf t)
     (hnr : notRef (valueOf t)) :
-    (run b (pad ++ bytesOf t)).map objects = some { results := [norm (valueOf t)] } := by
-  have hsp : isNONSPC 10 = false := by decide +kernel
-  have hu := LexUnit.append (LexUnit.gap pad hpad) (lex_tree t hwf)
-  obtain ⟨st', hm, h⟩ := hu St.init [10] 0 rfl
-  have htok : tokVals (specLex (pad ++ bytesOf t)) = ser (valueOf t) := by
-    unfold specLex
-    rw [h]
-    simp [foldBytes, stepByte, stepN, searchClass, hsp, hm, tokVals]
+    (run b (renderSep pad ++ bytesOf t)).map objects = some { results := [norm (valueOf t)] } := by
+  have htok := C01_tokens pad hpad t hwf
   rw [C14.C14_run_eq_spec b hb, Option.map_some]
   unfold objects
   simp only [tokVals] at htok
   rw [htok]
   exact congrArg some (C01_nesting (valueOf t) (clean_tree t hwf) hnr)
 
-/-- Non-vacuity: `[ -07 /A#20 (a\)b) <4 1> <</K .5 /N null >> 3 00 R ]` with NUL/CR/LF gaps is well formed. -/
-example : wf (.arr [32] [.int [45] [48, 55] [32], .name [.raw 65, .esc 50 48] [0, 13], .str [.raw 97, .esc 41, .raw 98] [],
-      .hex [52, 32, 49] [10],
-      .dict [] [([.raw 75], [32], .real [] [] [53] [32]), ([.raw 78], [9], .null [32])] [32],
-      .ref [51] [32] [48, 48] [32] [32]] []) := by
-  simp only [wf, wfList, wfEntries, gapAny, gapNE, signOK, digitsOK, valueEntries, keysOf, nameValue]
-  refine ⟨by decide, ⟨?_, ?_, ?_, ?_, ?_, ?_, trivial⟩, by simp⟩
-  · refine ⟨by decide, ⟨by decide, by decide, by decide⟩, by decide, by decide⟩
-  · refine ⟨?_, by decide, by decide⟩
+/-- Non-vacuity, with minimal delimiters, a comment and a generation number:
+    `[-07/A#20(a\)b)<4 1><</K/V>>3 7 R]%c<LF>`. -/
+example : wf (.arr [] [.int [45] [48, 55] [], .name [.raw 65, .esc 50 48] [], .str [.raw 97, .esc 41, .raw 98] [],
+      .hex [52, 32, 49] [], .dict [] [([.raw 75], [], .name [.raw 86] [])] [],
+      .ref [51] [.ws 32] [55] [.ws 32] []] [.comment [99] 10]) := by
+  have hnil : sepOK [] := by intro i hi; cases hi
+  have hws : sepOK [.ws 32] := by intro i hi; simp at hi; subst hi; simp [SepItem.ok, isGapByte]
+  have h1 : wf (.int [45] [48, 55] []) := by
+    simp only [wf, signOK, digitsOK]
+    exact ⟨by decide, ⟨by decide, by decide, by decide⟩, hnil⟩
+  have h2 : wf (.name [.raw 65, .esc 50 48] []) := by
+    simp only [wf]
+    refine ⟨?_, hnil⟩
     intro i hi; simp at hi; rcases hi with rfl | rfl <;> simp [NameItem.ok] <;> decide +kernel
-  · refine ⟨?_, by simp [chainOK, StrItem.nextOK], by decide, by simp⟩
+  have h3 : wf (.str [.raw 97, .esc 41, .raw 98] []) := by
+    simp only [wf]
+    refine ⟨?_, by simp [chainOK, StrItem.nextOK], by decide, hnil⟩
     intro i hi; simp at hi; rcases hi with rfl | rfl | rfl <;> simp [StrItem.ok] <;> decide +kernel
-  · refine ⟨?_, ⟨1, by decide +kernel⟩, by decide, by decide⟩
+  have h4 : wf (.hex [52, 32, 49] []) := by
+    simp only [wf]
+    refine ⟨?_, ⟨1, by decide +kernel⟩, hnil⟩
     intro c hc; simp at hc; rcases hc with rfl | rfl | rfl <;> decide +kernel
-  · refine ⟨by simp, ⟨?_, ⟨by decide, by decide⟩, ⟨by decide, by decide, by decide, by decide, by decide, by decide⟩,
-        ?_, ⟨by decide, by decide⟩, ⟨by decide, by decide⟩, trivial⟩, by decide, by decide +kernel, ?_⟩
-    · intro i hi; simp at hi; subst hi; simp [NameItem.ok]; decide +kernel
-    · intro i hi; simp at hi; subst hi; simp [NameItem.ok]; decide +kernel
-    · intro k hk; simp [NameItem.value] at hk; rcases hk with rfl | rfl <;> decide +kernel
-  · exact ⟨⟨by decide, by decide, by decide⟩, ⟨by decide, by decide⟩, ⟨by decide, by decide, by decide⟩,
-      by decide +kernel, ⟨by decide, by decide⟩, ⟨by decide, by decide⟩⟩
+  have hk : ∀ i ∈ [NameItem.raw 75], i.ok := by
+    intro i hi; simp at hi; subst hi; simp [NameItem.ok]; decide +kernel
+  have hv : wf (.name [.raw 86] []) := by
+    simp only [wf]
+    refine ⟨?_, hnil⟩
+    intro i hi; simp at hi; subst hi; simp [NameItem.ok]; decide +kernel
+  have h5 : wf (.dict [] [([.raw 75], [], .name [.raw 86] [])] []) := by
+    simp only [wf, wfEntries, valueEntries, keysOf]
+    refine ⟨hnil, ⟨hk, hnil, ?_, hv, trivial⟩, hnil, by simp, ?_⟩
+    · intro _ rest; simp [bytesOf, isDW]
+    · intro k hk'; simp [nameValue, NameItem.value] at hk'; subst hk'; decide +kernel
+  have h6 : wf (.ref [51] [.ws 32] [55] [.ws 32] []) := by
+    simp only [wf, digitsOK]
+    exact ⟨⟨by decide, by decide, by decide⟩, hws, by simp, ⟨by decide, by decide, by decide⟩, hws, by simp, hnil⟩
+  have hc : sepOK [.comment [99] 10] := by
+    intro i hi; simp at hi; subst hi
+    exact ⟨by intro x hx; simp at hx; subst hx; decide +kernel, Or.inl rfl⟩
+  simp only [wf, wfList]
+  refine ⟨hnil, ⟨h1, ⟨h2, ⟨h3, ⟨h4, ⟨h5, ⟨h6, trivial, ?_⟩, ?_⟩, ?_⟩, ?_⟩, ?_⟩, ?_⟩, hc⟩
+  all_goals intro _ _ rest
+  all_goals simp [bytesList, bytesOf, isDW, isGapByte, endsReg] at *
 
 end PdfVerif.Props.C01
